@@ -320,6 +320,42 @@ Theorem C05_R4_then_boundary :
 Proof. exact auto_atomic_then_boundary. Qed.
 Print Assumptions C05_R4_then_boundary.
 
+(* the END of an atomic context (canBeMadeAtomic's "we hit the root", tree.go:1012-1016), in atomic
+   position: sound when the continuation, wherever it has a result after an early stop of the loop, also
+   has one after the maximal run.  One-directional (the original also evaluates the early stops). *)
+Theorem C05_R4_auto_atomic_at_end :
+  forall e k o o1 c m n rest,
+    (forall s j l lr, m <= j < loop_run e k o1 c n s ->
+        rw_evals e (NConcat o rest) (loop_state o1 s j) l ->
+        rw_evals e (NConcat o rest) (loop_state o1 s (loop_run e k o1 c n s)) lr -> lr = [] -> l = []) ->
+    rw_hrefines e (NConcat o (NCharLoop k LGreedy o1 c m n :: rest))
+                  (NConcat o (NCharLoop k LAtomic o1 c m n :: rest)).
+Proof. exact auto_atomic_at_end. Qed.
+Print Assumptions C05_R4_auto_atomic_at_end.
+
+(* ... which holds when everything that follows always has a result (nullable loops: a*b*, a*b?c* ...) *)
+Theorem C05_R4_auto_atomic_before_nullable_end :
+  forall e k o o1 c m n rest, Forall (always_matches e) rest ->
+    rw_hrefines e (NConcat o (NCharLoop k LGreedy o1 c m n :: rest))
+                  (NConcat o (NCharLoop k LAtomic o1 c m n :: rest)).
+Proof. exact auto_atomic_before_nullable_end. Qed.
+Print Assumptions C05_R4_auto_atomic_before_nullable_end.
+
+(* REFUTED (known finding c05-nonboundary-end): the side condition above does NOT hold for a \B after a
+   loop of non-word characters — the \B holds between two loop characters and fails after the last one
+   when a word character follows — yet canBeMadeAtomic (tree.go:952-954, 989-991) steps over that \B and
+   accepts the end of the expression.  Stepping over it is sound when something after it rules out giving
+   characters back (C05_R4_cont_calculus, third conjunct).  Witness: -+\B on "--a" (Example below);
+   the engine: `\W+\B` on "--a" has no match with the rewrite and matches "-" without it.  Not fixed in
+   /repo because two rows of TestIdenticalTreePatterns pin the wrong trees (docs/patches/C05-nonboundary.patch). *)
+Theorem C05_R4_nonboundary_at_end_refuted :
+  ~ (forall e k o o1 c m n, 1 <= m -> is_rtl o1 = false ->
+       (forall ch, char_test e k c ch = true -> is_word e ch = false) ->
+       rw_hrefines e (NConcat o [NCharLoop k LGreedy o1 c m n; NAnchor ANonboundary])
+                     (NConcat o [NCharLoop k LAtomic o1 c m n; NAnchor ANonboundary])).
+Proof. exact rw_nonboundary_at_end_refuted. Qed.
+Print Assumptions C05_R4_nonboundary_at_end_refuted.
+
 (* a loop that ENDS a nested group (processNode's descent through captures — balancing ones included —
    groups, last children of concatenations, branches of alternations and conditionals:
    Model/Rewrite.atomized): the sub-trees are not equivalent by themselves (the rewritten one has
@@ -609,3 +645,19 @@ Proof.
   split; [|vm_compute; split; reflexivity].
   apply ET_loop_one; [left; reflexivity|]. apply (ET_loop _ COne LGreedy). exact I.
 Qed.
+
+(* the known finding, concretely: -+\B on "--a" (text 45 45 97, word characters a-z) *)
+Example C05_ex_R4_nonboundary_refuted :
+  sem rw_nb_env 4 (rw_nb_tree LGreedy) rw_s0 = Ok [{| pos := 1; caps := [] |}] /\
+  sem rw_nb_env 4 (rw_nb_tree LAtomic) rw_s0 = Ok [] /\
+  attempt rw_nb_env 5 (NCapture 0 0 (-1) (rw_nb_tree LGreedy)) 0 = Ok (Some {| pos := 1; caps := [(0, [(0, 1)])] |}) /\
+  find rw_nb_env 6 (NCapture 0 0 (-1) (rw_nb_tree LAtomic)) false 0 (-1) = Ok None.
+Proof. vm_compute. repeat split; reflexivity. Qed.
+
+(* R4 at the end: a*b* on "aab" in atomic position: same first result *)
+Example C05_ex_R4_at_end :
+  let e := rw_ex_env [97; 97; 98] in
+  let bs := NCharLoop COne LGreedy 0 98 0 INF in
+  rw_positions (sem e 4 (NConcat 0 [NCharLoop COne LGreedy 0 97 0 INF; bs]) rw_s0) = [3; 2; 1; 0] /\
+  rw_positions (sem e 4 (NConcat 0 [NCharLoop COne LAtomic 0 97 0 INF; bs]) rw_s0) = [3; 2].
+Proof. vm_compute. split; reflexivity. Qed.
